@@ -15,8 +15,10 @@ model's list of observations for history `i` under accrual oracle `orc`;
   `latest_valid_spec`, `never_failed_if_fresh`, `alert_not_repeated` are its
   readings clause by clause.
 * `C09_full` (all clauses, all histories) is FALSE for the code as it is:
-  `C09_full_fails` exhibits the two recorded findings. `C09_partial` proves all
-  clauses under the explicit hypothesis `calm`.
+  `C09_full_fails` exhibits the recorded finding K10 (CheckAll skips metrics that are
+  not valid). `C09_partial` proves ALL clauses — exactly-once across renewals included,
+  which finding K09a used to break before fix e17258f — under the explicit hypothesis
+  `calm` (no such tick).
 * `allowed_safe`, `allowed_holds_partial` — the same for every output the model
   relation `allowed` admits (`clauses_of_allowed`: no clause depends on the order
   of what Go takes out of maps); `model_allowed`: the relation is inhabited.
@@ -37,7 +39,7 @@ theorem window_latest_add (w : Window) (m : Metric) (h : w ≠ []) : (w.add m).l
 theorem safety_all_histories (i : Input) (orc : Nat → Nat → Nat → Bool) (hw : wf i = true) (hmax : i.maxA = 1) :
     ∀ c ∈ clauses i orc (run i orc), c.1 ∈ safeNames → c.2 = true := by
   simp only [wf, Bool.and_eq_true, decide_eq_true_eq] at hw
-  exact safe_from (P := { cap := i.cap, maxA := i.maxA, orc := orc }) hw.2 hmax hw.1 i.ops 0 _ _
+  exact safe_from (P := { cap := i.cap, maxA := i.maxA, orc := orc }) hw.2 hmax hw.1.1 i.ops 0 _ _
     (inv_init _ _ _) (fun _ h => h)
 
 /-- First sentence of the property: what `LatestMetrics` returns. -/
@@ -61,7 +63,8 @@ theorem alert_not_repeated (i : Input) (orc : Nat → Nat → Nat → Bool) (hw 
   intro c hc hn
   exact safety_all_histories i orc hw hmax c hc (by simp [safeNames, hn])
 
-/-- the hypothesis of the exactly-once clauses, on the model's run of the history -/
+/-- the hypothesis of the exactly-once clauses, on the model's run of the history: no tick
+    without a peerset function finds a stored latest metric that is not valid (finding K10) -/
 def calm (i : Input) (orc : Nat → Nat → Nat → Bool) : Bool :=
   calmFrom { cap := i.cap, maxA := i.maxA, orc := orc } 0 (State.init i.ps0) i.ops
 
@@ -69,41 +72,37 @@ def calm (i : Input) (orc : Nat → Nat → Nat → Bool) : Bool :=
 def C09_full : Prop :=
   ∀ (i : Input) (orc : Nat → Nat → Nat → Bool), wf i = true → i.maxA = 1 → holds i orc (run i orc) = true
 
-/-- All clauses, for the histories in which (a) no metric arrives for a (name, peer)
-    whose alert counter is still set (unless it is an expired metric replacing a stored
-    one) and (b) no tick without peerset function finds a stored latest metric invalid. -/
+/-- All clauses — including "reported exactly once, then forgotten" across renewals,
+    removals and repeated list entries — for every history in which no tick without a
+    peerset function finds a stored latest metric that is not valid. In particular for
+    every history whose peerset is always known or failing, and for every history whose
+    arrivals are all valid. -/
 theorem C09_partial (i : Input) (orc : Nat → Nat → Nat → Bool) (hw : wf i = true) (hmax : i.maxA = 1)
     (hcalm : calm i orc = true) : holds i orc (run i orc) = true := by
   simp only [wf, Bool.and_eq_true, decide_eq_true_eq] at hw
   unfold holds
   rw [List.all_eq_true]
-  exact all_from (P := { cap := i.cap, maxA := i.maxA, orc := orc }) hw.2 hmax hw.1 i.ops 0 _ _
-    (inv_init _ _ _) (sync_init _) (fun _ h => h) hcalm
+  exact all_from (P := { cap := i.cap, maxA := i.maxA, orc := orc }) hw.2 hmax hw.1.1 i.ops 0 _ _
+    (inv_init _ _ _) (sync_init _) (fresh_init _) (fun _ h => h) hw.1.2 hcalm
 
-/-- K09a: alert, renewal, second expiry: forgotten without an alert. -/
-def witnessCounterKept : Input :=
+/-- The history that used to show finding K09a (alert, renewal, second expiry — the alert
+    counter was kept and the second failure forgotten silently). Since fix e17258f the
+    second expiry is alerted: the history is calm and all clauses hold. -/
+def formerCounterKept : Input :=
   { cap := 2, maxA := 1, ps0 := .known [0],
     ops := [.add ⟨0, 0, 0, true, true⟩, .tick, .add ⟨2, 0, 0, true, false⟩, .tick,
             .add ⟨4, 0, 0, true, true⟩, .tick, .tick] }
 
-/-- K09b: no peerset function, latest metric expired and not valid: never reported. -/
+/-- K10: no peerset function, latest metric expired and not valid: never reported. -/
 def witnessCheckAllInvalid : Input :=
   { cap := 2, maxA := 1, ps0 := .unknown, ops := [.add ⟨0, 0, 0, false, true⟩, .tick, .tick] }
 
-/-- The code as it is does not meet the exactly-once clauses on every history. -/
+/-- The code as it is does not meet the exactly-once clauses on every history (finding K10). -/
 theorem C09_full_fails : ¬ C09_full := by
-  intro h
-  have := h witnessCounterKept (fun _ _ _ => true) (by decide) rfl
-  revert this
-  decide
-
-/-- The second finding is independent of the first. -/
-theorem C09_full_fails' : ¬ C09_full := by
   intro h
   have := h witnessCheckAllInvalid (fun _ _ _ => true) (by decide) rfl
   revert this
   decide
-
 
 /-- Wrap-around: after any sequence of `Add`s to a new window of capacity `cap > 0`, `All`
     is the last `cap` metrics, newest first (so `Latest` is the last one added). -/
@@ -129,7 +128,10 @@ theorem alert_once (P : Params) (hmax : P.maxA = 1) (ps0 : Peerset) (h : List Op
   obtain ⟨hc0, hst⟩ := noCheck_state P h 0 (State.init ps0) hnc (by simp [State.init]) (by simp [State.init])
   have hG : Gd k (stateAfter P 0 (State.init ps0) h) :=
     ⟨fun k' => by rw [hc0 k']; omega, hst k (by rw [hw]; simp)⟩
-  obtain ⟨h1, h2⟩ := once_from P hmax k w0 m hl hx hf ls hcov h.length _ hG ⟨hw, hc0 k⟩
+  have he0 : ecnt (stateAfter P 0 (State.init ps0) h) k = 0 := by
+    have := ecnt_le (stateAfter P 0 (State.init ps0) h) k
+    rw [hc0 k] at this; omega
+  obtain ⟨h1, h2⟩ := once_from P hmax k w0 m hl hx hf ls hcov h.length _ hG ⟨hw, he0⟩
   refine ⟨h1, fun hlen => ?_⟩
   have := (h2 hlen).1
   simp [latestOf, this]
@@ -200,26 +202,37 @@ theorem ping_republish (interval delay tick s p s' p' : Int) (hd : delay < inter
 
 /-! ### Non-vacuity: concrete histories meet the hypotheses and exercise every arm -/
 
-/-- arrivals for two peers (one wrapping a 2-slot window), a query, alert, forget, silence -/
+/-- arrivals for two peers (one wrapping a 2-slot window), a query, alert, forget, silence,
+    then an expired re-arrival that is alerted in its turn -/
 private def ex1 : Input :=
   { cap := 2, maxA := 1, ps0 := .known [0, 1],
     ops := [.add ⟨0, 0, 0, true, false⟩, .add ⟨1, 0, 0, true, false⟩, .add ⟨2, 0, 0, true, true⟩,
             .add ⟨3, 0, 1, true, false⟩, .add ⟨4, 0, 2, true, false⟩, .query 0, .tick, .checkPeers [0, 0, 1], .tick,
-            .setPeers .unknown, .query 0] }
+            .setPeers .unknown, .query 0, .add ⟨11, 0, 0, true, true⟩, .tick] }
 example : wf ex1 = true ∧ calm ex1 (fun _ _ _ => false) = true ∧
     run ex1 (fun _ _ _ => false) =
       [.silent, .silent, .silent, .silent, .silent, .metrics [(1, 3)] true, .check [(0, 0, some 2)] [],
-       .check [] [(0, 0)], .check [] [], .silent, .metrics [(1, 3), (2, 4)] true] ∧
+       .check [] [(0, 0)], .check [] [], .silent, .metrics [(1, 3), (2, 4)] true, .silent,
+       .check [(0, 0, some 11)] []] ∧
     holds ex1 (fun _ _ _ => false) (run ex1 (fun _ _ _ => false)) = true := by decide
 /-- the property checker rejects a repeated alert and a stale metric in the answer -/
 example : holds ex1 (fun _ _ _ => false)
       [.silent, .silent, .silent, .silent, .silent, .metrics [(1, 3)] true, .check [(0, 0, some 2)] [],
-       .check [(0, 0, some 2)] [], .check [] [], .silent, .metrics [(1, 3), (2, 4)] true] = false ∧
+       .check [(0, 0, some 2)] [], .check [] [], .silent, .metrics [(1, 3), (2, 4)] true, .silent,
+       .check [(0, 0, some 11)] []] = false ∧
     holds ex1 (fun _ _ _ => false)
       [.silent, .silent, .silent, .silent, .silent, .metrics [(0, 2), (1, 3)] true, .check [(0, 0, some 2)] [],
-       .check [] [(0, 0)], .check [] [], .silent, .metrics [(1, 3), (2, 4)] true] = false := by decide
-/-- the hypothesis of `C09_partial` is not met by the counterexamples -/
-example : calm witnessCounterKept (fun _ _ _ => true) = false ∧
-    calm witnessCheckAllInvalid (fun _ _ _ => true) = false := by decide
+       .check [] [(0, 0)], .check [] [], .silent, .metrics [(1, 3), (2, 4)] true, .silent,
+       .check [(0, 0, some 11)] []] = false := by decide
+/-- the former K09a history: the second failure is alerted now (and the pre-fix answer is rejected) -/
+example : wf formerCounterKept = true ∧ calm formerCounterKept (fun _ _ _ => true) = true ∧
+    run formerCounterKept (fun _ _ _ => true) =
+      [.silent, .check [(0, 0, some 0)] [], .silent, .check [] [], .silent, .check [(0, 0, some 4)] [],
+       .check [] [(0, 0)]] ∧
+    holds formerCounterKept (fun _ _ _ => true)
+      [.silent, .check [(0, 0, some 0)] [], .silent, .check [] [], .silent, .check [] [(0, 0)],
+       .check [] []] = false := by decide
+/-- the hypothesis of `C09_partial` is not met by the remaining counterexample -/
+example : calm witnessCheckAllInvalid (fun _ _ _ => true) = false := by decide
 
 end CV.C09
